@@ -128,6 +128,31 @@ func NetRead(hdr string, chunks [][]byte) (length, ret, handed int, flag bool, e
 	return length, ret, r.Handed, flag, err, known
 }
 
+// NetReadReused: ONE header object reads the stream `before` (whatever comes of it) and then the
+// stream `chunks`; the results of the second read.
+func NetReadReused(hdr string, before, chunks [][]byte) (length, ret, handed int, err error, known bool) {
+	var h interface {
+		ReadFrom(r io.Reader) (int, error)
+		Length() int
+	}
+	switch hdr {
+	case "binary2":
+		h = network.NewBinary2BytesHeader()
+	case "ascii4":
+		h = network.NewASCII4BytesHeader()
+	case "bcd2":
+		h = network.NewBCD2BytesHeader()
+	case "vmlh":
+		h = network.NewVMLHeader()
+	default:
+		return 0, 0, 0, nil, false
+	}
+	_, _ = h.ReadFrom(NewChunkReader(before))
+	r := NewChunkReader(chunks)
+	ret, err = h.ReadFrom(r)
+	return h.Length(), ret, r.Handed, err, true
+}
+
 // ParseChunks decodes `hex|hex|-|…`.
 func ParseChunks(s string) ([][]byte, bool) {
 	var out [][]byte
